@@ -127,7 +127,10 @@ func c17RunFpSQL(r *h.Result, c *c17FpCase) (ops, impl []string, err error) {
 	c.SQL = text
 	body, rest, err := c17WithBody(text, "fp_sel")
 	if err != nil {
-		return nil, nil, err
+		// the statement no longer has the WITH fp_sel as ( … ) shape, or its parentheses / literals do not balance: that is
+		// a finding about the statement (the model's text will differ), not a reason to stop the run — the oracles of the
+		// other streams (taint, leaves) get their chance to turn it into a concrete failing input
+		body, rest = "shape-not-recognised:"+err.Error()+":"+text, ""
 	}
 	date := time.Unix(0, c.Start*1000000).UTC().Add(-30 * time.Minute).Format("2006-01-02")
 	ops = append(ops, fmt.Sprintf("c17fpsql time_series_gin %s 2 %s", h.Hex([]byte(date)), strings.Join(mparts, ",")))
